@@ -46,6 +46,7 @@ M = [
  ("swapremove-raw-overwrite", "ecs/table.go", "\t\t\tcopyValue(column.data, column.data, int(lastIndex), int(index))\n\t\t\tcolumn.Zero(lastIndex, t.zeroPointer)", "\t\t\tcopyPtr(unsafe.Add(column.pointer, lastIndex*column.itemSize), unsafe.Add(column.pointer, uintptr(index)*column.itemSize), column.itemSize)\n\t\t\tcolumn.Zero(lastIndex, t.zeroPointer)", ["C11"]),
  ("exchange-no-table-refetch", "ecs/world_internal.go", "\tnewTable, newArch, relRemoved := w.storage.findOrCreateTable(oldTable, add, rem, relations, &mask)\n\n\t// Get the old table and archetype again, as the pointer may have changed.\n\toldTable = &w.storage.tables[oldTable.id]\n", "\tnewTable, newArch, relRemoved := w.storage.findOrCreateTable(oldTable, add, rem, relations, &mask)\n\n", ["C01", "C04"]),
  ("setrelations-no-table-refetch", "ecs/world_internal.go", "\t\tnewTable = w.storage.createTable(oldArch, newRelations)\n\t\t// Get the old table again, as pointers may have changed.\n\t\toldTable = &w.storage.tables[oldTable.id]\n", "\t\tnewTable = w.storage.createTable(oldArch, newRelations)\n", ["C04", "C01"]),
+ ("reset-small-path-raw-zero", "ecs/column.go", "\tif ownLen <= 64 && c.isTrivial {", "\tif ownLen <= 64 {", ["C11"]),
  ("mask64-bit63", "ecs/mask64.go", "func (b *bitMask64) ContainsAny(other *bitMask64) bool {\n\treturn b.bits&other.bits != 0", "func (b *bitMask64) ContainsAny(other *bitMask64) bool {\n\treturn (b.bits&other.bits)<<1 != 0", ["C20"]),
 ]
 
